@@ -106,7 +106,7 @@ TIES = {
  "C15": "the three arms of the command task and the point where its receiver is subscribed are regenerated from runtime/mod.rs (C15_command_task_as_modelled); the stated capacity is pinned over the regenerated constant (C15_capacity_as_stated)",
  "C14": "client half of the handshake: model clientFlags + C14_client_asks_for_streaming_iff_option, tied through real sockets",
  "C18": "TRANSLATED model: InputState::try_from is regenerated as a table (one row per arm) and C18_translation proves the table computes St.step for all states and scancodes; client half of the handshake: C18_failsafe_session_registered, tied through real sockets and the real glonax-input binary",
- "C17": "TRANSLATED: the ordered checks of FilterItem::matches are regenerated and C17_filter_translated proves they compute the model's itemMatches for all entries and identifiers; Filter::matches / push recognised as shapes",
+ "C17": "TRANSLATED: the ordered checks of FilterItem::matches are regenerated and C17_filter_translated proves they compute the model's itemMatches for all entries and identifiers; Filter::matches / push recognised as shapes; every with_* / set_* of an entry and Filter::default recognised (C17_entries_as_constructed)",
  "C13": "TRANSLATED: the ordered checks of Frame::try_from are regenerated and C13_header_translation proves they compute the model's parseHeader for all byte strings",
 }
 for k, v in TIES.items():
